@@ -83,4 +83,8 @@ var Map zconst.LangMap = map[zconst.ZogType]map[zconst.ZogIssueCode]string{
 		zconst.IssueCodeZHTTPInvalidForm:  "Formulario no válido",
 		zconst.IssueCodeZHTTPInvalidQuery: "Parámetros de consulta no válidos",
 	},
+	// z.CustomFunc schemas (type "custom") have no built-in tests: every issue falls back to this message
+	"custom": {
+		zconst.IssueCodeFallback: "Valor no es válido",
+	},
 }
